@@ -65,6 +65,10 @@ Example fixed_write_twice_propagated :
   | _ => False
   end.
 Proof. vm_compute. split; reflexivity. Qed.
+(** the code before fixes/C12-4.diff (no reset) wrote the same two files on this mesh (count-only chops) *)
+Example before_reset_write_twice_propagated :
+  run before_reset tb0 (init store3) [Add 1; Add 0; Write; Write] = run fixed tb0 (init store3) [Add 1; Add 0; Write; Write].
+Proof. vm_compute. reflexivity. Qed.
 (** the original code raised InconsistentGradingsError on the second write of this mesh *)
 Example original_write_twice_propagated :
   run original tb0 (init store3) [Add 1; Add 0; Write; Write]
